@@ -258,6 +258,10 @@ func c06CheckCert(c *hx.Ctx, name string, guid util.EFIGUID, attrs uint32, pl c0
 		alt("name as single bytes", join([][]byte{[]byte(name), comp[1], comp[2], comp[3], comp[4]})) {
 		return
 	}
+	if ok, val := signingTimeIsDER(&sd.Signers[0]); !ok {
+		bad("signingTime inside the SignedData is not in the DER form (UTC, seconds, 'Z')", map[string]any{"value": val})
+		return
+	}
 	if !sd.Signers[0].Names(cert) || len(sd.Certs) != 1 || !bytes.Equal(sd.Certs[0], cert.Raw) {
 		bad("signer identity / embedded certificate is not the given certificate", nil)
 		return
